@@ -321,7 +321,9 @@ func (c *Client) Send(packet stanza.Packet) error {
 	// Store stanza as non-acked as part of stream management
 	// See https://xmpp.org/extensions/xep-0198.html#scenarios
 	if c.config.StreamManagementEnable {
-		if _, ok := packet.(stanza.SMRequest); !ok {
+		_, isRequest := packet.(stanza.SMRequest)
+		_, isAnswer := packet.(stanza.SMAnswer)
+		if !isRequest && !isAnswer {
 			toStore := stanza.UnAckedStz{Stz: string(data)}
 			c.Session.SMState.UnAckQueue.Push(&toStore)
 		}
